@@ -33,6 +33,8 @@ TABLE = [
     ("C14.duplicate_names_each_section", "C14", [], SC, "SchemaValidator.check_duplicate_names", {0: ["issues_list"]}),
     ("C14.script_every_schema_file_counts", "C14", [], "hed/scripts/script_util.py", "validate_all_schemas",
      {0: ["all_issues"], 1: ["single_schema_issues"]}),
+    ("C09.def_tags_collected_from_every_tag_of_every_group", "C09", ["C01"], "hed/models/hed_group.py", "HedGroup._get_def_tags_from_group",
+     {0: ["def_tags"], 1: ["def_tags"]}),
     ("C16.sidecars_each_validated", "C16", [], "hed/tools/bids/bids_file_group.py", "BidsFileGroup.validate_sidecars", {0: ["issues"]}),
     ("C16.datafiles_each_validated", "C16", [], "hed/tools/bids/bids_file_group.py", "BidsFileGroup.validate_datafiles", {0: ["issues"]}),
     ("C16.groups_each_validated", "C16", [], "hed/tools/bids/bids_dataset.py", "BidsDataset.validate", {0: ["issues"]}),
